@@ -14,6 +14,8 @@
 #include <amgcl/solver/cg.hpp>
 #include <amgcl/solver/bicgstab.hpp>
 #include <amgcl/solver/gmres.hpp>
+#include <amgcl/solver/fgmres.hpp>
+#include <amgcl/solver/richardson.hpp>
 #include <amgcl/solver/preonly.hpp>
 #include <amgcl/preconditioner/dummy.hpp>
 #include <amgcl/preconditioner/schur_pressure_correction.hpp>
@@ -117,15 +119,15 @@ static bool make_mask(int n, int kind, Rng &r, Saddle &s) {
     int np = 0; for (char c : s.mask) np += c; return np > 0 && np < n && np <= n - np;
 }
 // cmode: 0 no stored pp entries, 1 -c I, 2 dominant block, 3 explicitly stored zero diagonal
-static Saddle gen_saddle(Rng &r, int n, int maskkind, int cmode, bool need_kpp_regular) {
+static Saddle gen_saddle(Rng &r, int n, int maskkind, int cmode, bool need_kpp_regular, double coupling = 1.0) {
     for (int attempt = 0; attempt < 60; ++attempt) {
         Saddle s; s.n = n; if (!make_mask(n, maskkind, r, s)) { maskkind = 3; continue; }
         int mode = attempt < 40 ? cmode : 2; static const char *cn[] = {"absent", "minus-cI", "dominant", "explicit-zero-diagonal"}; s.cmode = cn[mode];
         s.K = LD::Zero(n, n); s.stored.assign((size_t)n * n, 0); std::vector<int> iu, ip; for (int i = 0; i < n; ++i) (s.mask[i] ? ip : iu).push_back(i); int nu = iu.size(), np = ip.size();
         bool stokes = r.coin(0.5); double dB = r.pick(std::vector<double>{0.3, 0.6});
         for (int a = 0; a < nu; ++a) { long double rs = 0; for (int b = 0; b < nu; ++b) if (a != b && r.coin(0.25)) { double v = r.uni(-1, 1); s.K(iu[a], iu[b]) = v; rs += std::fabs(v); } s.K(iu[a], iu[a]) = (double)((rs + 0.5) * r.uni(1.2, 1.6)); }
-        for (int a = 0; a < nu; ++a) for (int b = 0; b < np; ++b) if (r.coin(dB)) { double v = r.uni(-1, 1); s.K(iu[a], ip[b]) = v; if (stokes) s.K(ip[b], iu[a]) = v; }
-        if (!stokes) for (int a = 0; a < nu; ++a) for (int b = 0; b < np; ++b) if (r.coin(dB)) s.K(ip[b], iu[a]) = r.uni(-1, 1);
+        for (int a = 0; a < nu; ++a) for (int b = 0; b < np; ++b) if (r.coin(dB)) { double v = r.uni(-1, 1) * coupling; s.K(iu[a], ip[b]) = v; if (stokes) s.K(ip[b], iu[a]) = v; }
+        if (!stokes) for (int a = 0; a < nu; ++a) for (int b = 0; b < np; ++b) if (r.coin(dB)) s.K(ip[b], iu[a]) = r.uni(-1, 1) * coupling;
         if (mode == 1) for (int b = 0; b < np; ++b) s.K(ip[b], ip[b]) = -r.uni(0.05, 0.5);
         if (mode == 2) for (int a = 0; a < np; ++a) { long double rs = 0; for (int b = 0; b < np; ++b) if (a != b && r.coin(0.3)) { double v = r.uni(-0.5, 0.5); s.K(ip[a], ip[b]) = v; rs += std::fabs(v); } long double ro = 0; for (int b = 0; b < nu; ++b) ro += fabsl(s.K(ip[a], iu[b])); s.K(ip[a], ip[a]) = (double)((rs + ro + 0.5) * 1.3) * (r.coin(0.3) ? -1 : 1); }
         if (mode == 3) for (int b = 0; b < np; ++b) s.stored[(size_t)ip[b] * n + ip[b]] = 1;
@@ -254,7 +256,17 @@ static void sub_schur_blocks() {
             { LD X = approx ? LD(kuu_dia_inv(s, simplec).asDiagonal()) : LD(s.Kuu.partialPivLu().inverse()); LD Want = s.Kpp - s.Kpu * X * s.Kup;
               LD Got = extract(s.np, s.np, [&](const backend::numa_vector<double> &e, backend::numa_vector<double> &y) { backend::spmv(1.0, P, e, 0.0, y); });
               long double tol = 4 * (n + 3) * EPS * (ninf(s.Kpp) + ninf(s.Kpu) * ninf(X) * ninf(s.Kup) + ninf(adjusted_pp(s, adjust, simplec)));
-              c.check_le((double)nmax(Got - Want), (double)tol, std::string("schur:schur-operator:adjust_p") + std::to_string(adjust) + (approx ? ":approx" : ":exact"), "matrix-free operator used for the pressure solve is not Kpp - Kpu Kuu^-1 Kup (resp. its documented diagonal approximation)"); }
+              c.check_le((double)nmax(Got - Want), (double)tol, std::string("schur:schur-operator:adjust_p") + std::to_string(adjust) + (approx ? ":approx" : ":exact"), "matrix-free operator used for the pressure solve is not Kpp - Kpu Kuu^-1 Kup (resp. its documented diagonal approximation)");
+              // the operator as the inner pressure solvers use it: y = beta y + alpha S x (backend::spmv) and r = f - S x (backend::residual) at random x
+              long double nS = ninf(s.Kpp) + ninf(s.Kpu) * ninf(X) * ninf(s.Kup) + ninf(adjusted_pp(s, adjust, simplec)); bool ok = true; double worst = 0; std::string wkey;
+              static const double AL[4] = {1, -1, 2, 0.5}, BE[3] = {0, 1, -1};
+              for (int ia = 0; ia < 4; ++ia) for (int ib = 0; ib < 3; ++ib) { backend::numa_vector<double> x(s.np), y(s.np); LV xd(s.np), yd(s.np); for (int i = 0; i < s.np; ++i) { x[i] = r.uni(-1, 1); y[i] = r.uni(-1, 1); xd(i) = x[i]; yd(i) = y[i]; }
+                  backend::spmv(AL[ia], P, x, BE[ib], y); LV want = BE[ib] * yd + AL[ia] * (Want * xd); long double e = 0; for (int i = 0; i < s.np; ++i) e = std::max(e, fabsl((long double)y[i] - want(i)));
+                  long double tl = 4 * (n + 3) * EPS * (std::fabs(AL[ia]) * nS + std::fabs(BE[ib])); if (!(e <= tl)) { if (ok) wkey = "alpha=" + std::to_string(AL[ia]) + " beta=" + std::to_string(BE[ib]); ok = false; worst = std::max(worst, (double)e); } }
+              c.check(ok, std::string("schur:schur-operator:alpha-beta:adjust_p") + std::to_string(adjust) + (approx ? ":approx" : ":exact"), "backend::spmv(alpha, schur, x, beta, y) is not beta y + alpha (Kpp - Kpu Kuu^-1 Kup) x", J().s("first", wkey).n("worst_abs_err", worst));
+              { backend::numa_vector<double> x(s.np), f(s.np), rr(s.np); LV xd(s.np), fd(s.np); for (int i = 0; i < s.np; ++i) { x[i] = r.uni(-1, 1); f[i] = r.uni(-1, 1); rr[i] = 777; xd(i) = x[i]; fd(i) = f[i]; }
+                backend::residual(f, P, x, rr); LV want = fd - Want * xd; long double e = 0; for (int i = 0; i < s.np; ++i) e = std::max(e, fabsl((long double)rr[i] - want(i)));
+                c.check_le((double)e, (double)(4 * (n + 3) * EPS * (nS + 1)), std::string("schur:schur-operator:residual:adjust_p") + std::to_string(adjust) + (approx ? ":approx" : ":exact"), "backend::residual(f, schur, x, r) is not f - (Kpp - Kpu Kuu^-1 Kup) x at x != 0"); } }
         } catch (const std::exception &e) { c.fail("schur:exception:blocks", e.what()); }
         c.nontrivial();
     }
@@ -289,6 +301,51 @@ static void sub_schur_preonly() {
                 } catch (const std::exception &e) { c.fail("schur:exception:preonly", tag + ": " + e.what()); } };
             if (combo == 0) run((preconditioner::schur_pressure_correction<EX5, EX6>*)nullptr); else if (combo == 1) run((preconditioner::schur_pressure_correction<DUM, EX6>*)nullptr); else run((preconditioner::schur_pressure_correction<EX5, DUM>*)nullptr);
         }
+        c.nontrivial();
+    }
+}
+
+//---------------------------------------------------------------------------
+// schur_krylov: exactness of type 1 / type 2 with inner PRESSURE solvers that re-evaluate the true residual of the matrix-free
+// Schur operator at non-zero iterates (restarted GMRES with a tiny restart, FGMRES, Richardson), run to tol_in = 1e-12 and
+// preconditioned with the exact inverse of the adjusted pressure matrix.  Systems are generated with weak u-p coupling so that
+// rho := || P^-1 (S - P) ||_inf < 1/2 (checked in the harness): Richardson then contracts by 2 per step and the residual-minimising
+// methods are at least as fast, so 300 iterations reach 1e-12.  The inexact inner solve adds  ||S^-1|| tol_in (1 + b G) to dp.
+//---------------------------------------------------------------------------
+template <class P> auto set_restart(P &p, int m) -> decltype((void)(p.M = m)) { p.M = m; }
+inline void set_restart(...) {}
+template <class SPC> void krylov_case(Case &c, const Saddle &s, const Crs &C, const std::string &solver, bool simplec, const LD &Ki, const LD &Ti, const LD &Xu, const LD &Xp, Rng &r) {
+    int n = s.n;
+    for (int type = 1; type <= 2; ++type) for (int adjust = 0; adjust <= 2; ++adjust) {
+        LD Pm = adjusted_pp(s, adjust, simplec); if (cond_inf(Pm) > 1e6L) continue; LD Pi = Pm.partialPivLu().inverse(); long double rho = ninf(Pi * (s.S - Pm)); if (!(rho < 0.5L)) { vf::obs_sum("krylov_configs_skipped_weak_preconditioner"); continue; }
+        std::string tag = solver + ":type" + std::to_string(type) + ":adjust_p" + std::to_string(adjust);
+        try { typename SPC::params p; p.pmask = s.mask; p.type = type; p.adjust_p = adjust; p.simplec_dia = simplec; p.approx_schur = false;
+            p.psolver.solver.tol = 1e-12; p.psolver.solver.maxiter = 300; set_restart(p.psolver.solver, solver == "gmres(2)" ? 2 : 3);
+            SPC P(std::tie(C.n, C.ptr, C.col, C.val), p);
+            LD B = extract(n, n, [&](const backend::numa_vector<double> &f, backend::numa_vector<double> &x) { P.apply(f, x); });
+            long double G = ninf(Xu), sp = ninf(Xp), a = ninf(s.Kup), b = ninf(s.Kpu);
+            double tol = schur_tol(s, Xu, Xp, 0) + (double)(4 * (1 + G * a) * sp * 1e-11L * (1 + b * G) * (1 + ninf(s.Kpp) + b * G * a));
+            c.check_le((double)nmax(B - (type == 1 ? Ki : Ti)), tol, "schur:krylov-inner:" + tag, type == 1 ? "type 1 with an exact flow solve and a converged Krylov pressure solve is not K^-1" : "type 2 with an exact flow solve and a converged Krylov pressure solve is not the inverse of the block upper triangular matrix");
+            vf::obs_sum("krylov_configs_checked");
+        } catch (const std::exception &e) { c.fail("schur:exception:krylov", tag + ": " + e.what()); }
+    }
+    (void)r;
+}
+static void sub_schur_krylov() {
+    long N = vf::tier(120, 1800);
+    typedef make_solver<ExactPrec<70>, solver::gmres<SB>> PG; typedef make_solver<ExactPrec<71>, solver::fgmres<SB>> PF; typedef make_solver<ExactPrec<72>, solver::richardson<SB>> PR;
+    for (long idx = 0; idx < N; ++idx) {
+        if (!sel("schur_krylov", idx)) continue;
+        Rng r(vf::case_seed("schur_krylov", idx)); int maskkind = idx % 4, which = (idx / 4) % 3; int n = (int)r.range(6, 24); bool simplec = r.coin(0.5);
+        Saddle s = gen_saddle(r, n, maskkind, 2, true, 0.25); Crs C = crs_of(s.K, r.coin(0.3) ? &r : nullptr);
+        static const char *sn[] = {"gmres(2)", "fgmres(3)", "richardson"};
+        Case c("schur_krylov", idx, J().n("n", n).n("np", s.np).s("mask", s.maskname).s("psolver", sn[which]).bl("simplec_dia", simplec));
+        LD Ki = s.K.partialPivLu().inverse(), Xu = s.Kuu.partialPivLu().inverse(), Xp = s.S.partialPivLu().inverse();
+        LD T = LD::Zero(n, n); for (int a = 0; a < s.nu; ++a) { for (int b = 0; b < s.nu; ++b) T(s.iu[a], s.iu[b]) = s.Kuu(a, b); for (int b = 0; b < s.np; ++b) T(s.iu[a], s.ip[b]) = s.Kup(a, b); } for (int a = 0; a < s.np; ++a) for (int b = 0; b < s.np; ++b) T(s.ip[a], s.ip[b]) = s.S(a, b);
+        LD Ti = T.partialPivLu().inverse();
+        if (which == 0) krylov_case<preconditioner::schur_pressure_correction<ExactSolver<73>, PG>>(c, s, C, sn[which], simplec, Ki, Ti, Xu, Xp, r);
+        else if (which == 1) krylov_case<preconditioner::schur_pressure_correction<ExactSolver<74>, PF>>(c, s, C, sn[which], simplec, Ki, Ti, Xu, Xp, r);
+        else krylov_case<preconditioner::schur_pressure_correction<ExactSolver<75>, PR>>(c, s, C, sn[which], simplec, Ki, Ti, Xu, Xp, r);
         c.nontrivial();
     }
 }
@@ -419,6 +476,33 @@ template <int B, int Tag, template <class, class> class CPRT> void cpr_block_vs_
         long double tolB = 4 * (Ai * Ds.rows() * tolA * base + Ai * B * tolF * (1 + ninf(R.A)) + 32 * (n + 1) * EPS * (1 + base));
         c.check_le((double)nmax(Bs - Bb), (double)tolB, name + ":block-vs-scalar:action", "action differs between scalar input with block_size b and b x b block input (identity global stage)");
         vf::obs_sum(dig(Bs) == dig(Bb) ? "cpr_block_scalar_bitwise_equal" : "cpr_block_scalar_rounding_differs");
+        if (active_blocks == 0) {
+            // block-input partial_update histories: unchanged matrix (action bitwise unchanged), then a perturbed matrix without and with
+            // transfer update, compared with the scalar-input twin (rounding bound as above), with a freshly constructed block object
+            // (transfer operator) and with the formula I + Scatter P Fpp (I - A2) built from the operators the object holds.
+            const bool drs = std::is_same<CB, preconditioner::cpr_drs<ExactPrec<Tag + 1>, preconditioner::dummy<BB>>>::value;
+            for (int ut = 1; ut >= 0; --ut) { Pb.partial_update(adapter::block_matrix<Bk>(At), (bool)ut); LD B2 = cpr_block_action<B>(Pb, n);
+                c.check(dig(B2) == dig(Bb), name + (ut ? ":block-input:partial_update:with-transfer" : ":block-input:partial_update:without-transfer"), "block input: partial_update with the unchanged matrix changed the action", J().n("max_diff", (double)nmax(B2 - Bb)).n("b", B)); }
+            Res R2 = R; for (int i = 0; i < n; ++i) for (int j = 0; j < n; ++j) if (i != j && R2.A(i, j) != 0) R2.A(i, j) = (double)(R2.A(i, j) * (1 + 0.3 * r.uni(-1, 1)));
+            for (int i = 0; i < n; ++i) { long double sm = 0; for (int j = 0; j < n; ++j) if (j != i) sm += fabsl(R2.A(i, j)); R2.A(i, i) = (double)((sm + 0.3) * 1.3); }
+            Crs C2 = crs_of(R2.A, nullptr, &keep); auto At2 = std::tie(C2.n, C2.ptr, C2.col, C2.val);
+            LD Fr2, Ar2, Sr2; double kD2; cpr_reference(R2, Fr2, Ar2, Sr2, kD2); long double tolF2 = 2 * 8.0 * B * B * EPS * kD2 * nmax(Fr2), nF = std::max<long double>(std::max(ninf(Fr), ninf(Fr2)), B), nA2 = ninf(R2.A);
+            long double base2 = Ai * nF * (1 + nA2), tolB2 = 4 * (Ai * Ds.rows() * tolA * base2 + Ai * B * std::max(tolF, tolF2) * (1 + nA2) + 32 * (n + 1) * EPS * (1 + base2));
+            LD Fbefore = dense_of(*ACC::Fpp(Pb));
+            for (int ut = 0; ut <= 1; ++ut) { std::string k2 = name + (ut ? ":block-input:partial_update:perturbed:with-transfer" : ":block-input:partial_update:perturbed:without-transfer");
+                Pb.partial_update(adapter::block_matrix<Bk>(At2), (bool)ut); Ps.partial_update(At2, (bool)ut);
+                LD Fl = dense_of(*ACC::Fpp(Pb)), Sl = dense_of(*ACC::Scatter(Pb)), Bb2 = cpr_block_action<B>(Pb, n), Bs2 = cpr_action(Ps, n);
+                if (!ut) c.check(nmax(Fl - Fbefore) == 0, k2 + ":Fpp-changed", "block input: partial_update(K, false) changed the transfer operator");
+                else { CB Pf(adapter::block_matrix<Bk>(At2), pb); LD Ff = dense_of(*ACC::Fpp(Pf));
+                    c.check_le((double)nmax(Fl - Ff), (double)(drs ? 0 : tolF2), k2 + ":Fpp-vs-fresh-object", "block input: transfer operator after partial_update(K, true) differs from the one of a freshly constructed object");
+                    if (!drs) { LD Fr0 = LD::Zero(Fl.rows(), Fl.cols()); Fr0.leftCols(std::min<long>(Fr2.cols(), Fl.cols())) = Fr2.leftCols(std::min<long>(Fr2.cols(), Fl.cols())); c.check_le((double)nmax(Fl - Fr0), (double)(tolF2 + 1e-300L), k2 + ":Fpp:first-row-of-inverse-block", "block input: Fpp after partial_update(K, true) is not the first row of the inverse of the diagonal block"); }
+                    vf::obs_sum(nmax(Fl - Ff) == 0 ? "cpr_block_update_fpp_bitwise_fresh" : "cpr_block_update_fpp_rounding_differs"); }
+                c.check_le((double)nmax(Bb2 - Bs2), (double)tolB2, k2 + ":vs-scalar-twin", "block input: action after partial_update with a perturbed matrix differs from the scalar-input twin");
+                LD Pd = extract(Ds.rows(), Ds.rows(), [&](const backend::numa_vector<double> &f, backend::numa_vector<double> &x) { ACC::P(Pb)->apply(f, x); }); LD M = Sl * Pd * Fl;
+                LD Bform = LD::Identity(n, n) + M * (LD::Identity(n, n) - R2.A);
+                c.check_le((double)nmax(Bb2 - Bform), (double)(16 * (n + 1) * EPS * (1 + ninf(M) * (1 + nA2))), k2 + ":action-formula", "block input: action after partial_update is not f + Scatter P Fpp (f - A2 f)"); }
+            vf::obs_sum("cpr_block_partial_update_histories");
+        }
     } catch (const std::exception &e) { c.fail(name + ":exception:block-vs-scalar", e.what()); }
 }
 
@@ -619,6 +703,7 @@ int main(int argc, char **argv) {
     if (vf::sub_enabled("schur_exact")) sub_schur_exact();
     if (vf::sub_enabled("schur_blocks")) sub_schur_blocks();
     if (vf::sub_enabled("schur_preonly")) sub_schur_preonly();
+    if (vf::sub_enabled("schur_krylov")) sub_schur_krylov();
     if (vf::sub_enabled("cpr")) sub_cpr();
     if (vf::sub_enabled("cpr_drs")) sub_cpr_drs();
     if (vf::sub_enabled("cpr_active_block")) sub_cpr_active_block();
